@@ -86,12 +86,16 @@ def base_env(extra=None):
         if k.startswith("E2E_"):
             del env[k]
     env.update(extra or {})
+    for k in [k for k, v in env.items() if v is None]:      # a value of None = the variable is UNSET for the child
+        del env[k]
     return env
 
 
-def launch(entry, argv, cwd, env=None, stdin_text=None, timeout=150, logfile=None):
+def launch(entry, argv, cwd, env=None, stdin_text=None, timeout=150, logfile=None, umask=None):
     """Run the launcher; returns (exit code, combined output tail)."""
     cmd = [PY, LAUNCHER, entry] + [str(a) for a in argv]
+    if umask is not None:
+        cmd = ["/bin/sh", "-c", "umask %03o; exec \"$@\"" % umask, "sh"] + cmd
     try:
         p = subprocess.run(cmd, cwd=cwd, env=base_env(env), input=stdin_text, text=True, errors="replace",
                            stdout=subprocess.PIPE, stderr=subprocess.STDOUT, timeout=timeout)
@@ -180,6 +184,7 @@ def gen_local_study(rng, shape=None, scenario=None, cancel=None, nmax=6):
     return {"shape": shape, "scenario": scenario, "steps": steps, "params": params, "attempts": attempts,
             "throttle": rng.choice([0, 0, 0, 1, 2, 3]), "rlimit": rng.choice([0, 1, 2]),
             "hashws": rng.random() < 0.4, "usetmp": rng.random() < 0.25, "ospell": pick_ospell(rng),
+            "env": pick_env(rng), "sequence": rng.choice(SEQUENCES) if rng.random() < 0.2 else None,
             "cancel": cancel or "no"}
 
 
@@ -198,14 +203,16 @@ SNIPPETS = [
     (['(echo bg > /dev/null) &', 'wait $!; echo waited'], "waited\n"),
     (['A=(p q r); echo "${#A[@]} ${A[1]}"'], "3 q\n"),
     (['printf "%s;%s\\n" semi colon; :'], "semi;colon\n"),
+    (['set -o pipefail; if [[ "ab" == a* && -n "$BASH_VERSION" ]]; then echo bash-only; fi; set +o pipefail'], "bash-only\n"),
 ]
 ENDINGS = ["exit", "exit", "lastcmd", "false", "lastcmd-comment"]
 CHATTY_BYTES = 200000
 RUN_TIMEOUT = 75          # hard limit per `maestro run` / `conductor` sub-process of a local study
 
 
-def step_cmd(st, d):
-    mark, cnt, out = os.path.join(d, "marks.log"), os.path.join(d, "cnt"), os.path.join(d, "out")
+def step_cmd(st, d, aux=None):
+    aux = aux or d
+    mark, cnt, out = os.path.join(aux, "marks.log"), os.path.join(aux, "cnt"), os.path.join(d, "out")
     table = " ".join('"%s"' % " ".join(str(c) for c in v) for v in st["codes"])
     uses = "".join(" %s=$(%s)" % (k, k) for k in st["use"])
     end = st.get("end", "exit")
@@ -250,12 +257,12 @@ def step_cmd(st, d):
     return "\n".join(lines) + "\n"
 
 
-def spec_text(case, d):
+def spec_text(case, d, aux=None):
     import yaml
     spec = {"description": {"name": STUDY, "description": "generated end-to-end study"}}
     study = []
     for st in case["steps"]:
-        run = {"cmd": step_cmd(st, d)}
+        run = {"cmd": step_cmd(st, d, aux)}
         if st["deps"]:
             run["depends"] = list(st["deps"])
         if st.get("restart"):
@@ -309,7 +316,74 @@ def flag_args(case):
 
 
 def flags_text(case):
-    return " ".join(flag_args(case) + ["-o:" + case.get("ospell", "abs")])
+    return " ".join(flag_args(case) + ["-o:" + case.get("ospell", "abs"), "env:" + case.get("env", "base")] +
+                    (["after:" + case["sequence"]] if case.get("sequence") else []))
+
+
+ENV_PROFILES = {
+    # name: (environment of the `maestro`/`conductor` process: None = unset, umask)
+    "base": ({}, None),
+    "shell-unset": ({"SHELL": None}, None),
+    "shell-bash": ({"SHELL": "/bin/bash"}, None),
+    "shell-sh": ({"SHELL": "/bin/sh"}, None),
+    "shell-false": ({"SHELL": "/bin/false"}, None),
+    "home-unset": ({"HOME": None}, None),
+    "home-missing": ({"HOME": "/nonexistent/home/of/nobody"}, None),
+    "lang-C": ({"LANG": "C", "LC_ALL": "C"}, None),
+    "lang-utf8": ({"LANG": "C.UTF-8", "LC_ALL": "C.UTF-8"}, None),
+    "umask-077": ({}, 0o077),
+    "umask-022": ({}, 0o022),
+    "stripped": ({"SHELL": "/bin/false", "HOME": None, "LANG": None, "LC_ALL": "C", "USER": None, "LOGNAME": None}, 0o077),
+}
+SEQUENCES = ["finish-cancel", "killed", "dry-then-real", "other-spec", "killed-cancel"]
+
+
+def pick_env(rng):
+    return "base" if rng.random() < 0.4 else rng.choice(sorted(ENV_PROFILES))
+
+
+def store_only_y(common_args, cwd, envx, log, umask, d):
+    """`maestro run -y` (re-used directory is emptied, the study stored) with a stub `conductor` on
+    PATH, so that the real conductor entry point can be started separately afterwards"""
+    bind = os.path.join(d, "bin")
+    os.makedirs(bind, exist_ok=True)
+    with open(os.path.join(bind, "conductor"), "w") as f:
+        f.write("#!/bin/sh\nexit 0\n")
+    os.chmod(os.path.join(bind, "conductor"), 0o755)
+    return launch("maestro", ["run", "-y"] + common_args, cwd,
+                  dict(envx, PATH=bind + os.pathsep + os.environ.get("PATH", "")), logfile=log, umask=umask)
+
+
+def run_prelude(case, d, oarg, cwd, envx, umask, log):
+    """Earlier commands on the SAME output directory (case['sequence']); whatever they leave behind
+    (snapshots, hand-off files, status.csv, lock files, logs, workspaces, scripts) must not influence
+    the run under observation, which re-uses the directory with `-y`."""
+    seq = case["sequence"]
+    pre = os.path.join(d, "pre")
+    os.makedirs(os.path.join(pre, "cnt"))
+    c0 = json.loads(json.dumps(case))
+    if seq == "other-spec":          # the earlier study had MORE steps
+        last = c0["steps"][-1]["name"]
+        for k in (1, 2):
+            c0["steps"].append({"name": "zz-extra%d" % k, "deps": [last] if k == 1 else [], "use": [], "codes": [[0] * case["attempts"]],
+                                "restart": False, "cancel": False, "shape": [], "end": "exit"})
+    for st in c0["steps"]:
+        st["cancel"] = False
+    with open(os.path.join(pre, "spec.yaml"), "w") as f:
+        f.write(spec_text(c0, d, aux=pre))
+    spec0 = os.path.join(pre, "spec.yaml")
+    env = dict(envx, **{"E2E_MARK_LOG": os.path.join(pre, "marks.log"), "E2E_POLL_SLEEP": str(POLL_SLEEP),
+                        "E2E_STUDY_DIR": os.path.join(d, "out"), "E2E_SNAP_DIR": os.path.join(pre, "snap"),
+                        "E2E_MAX_POLLS": "1" if seq.startswith("killed") else "80"})
+    args = ["run"] + (["--dry"] if seq == "dry-then-real" else []) + \
+           ["-fg", "-y", "-s", POLL_SLEEP, "--attempts", case["attempts"], "--rlimit", case["rlimit"],
+            "--throttle", case["throttle"]] + flag_args(case) + ["-o", oarg, spec0]
+    out = [["maestro " + " ".join(str(a) for a in args[:4]), launch("maestro", args, cwd, env, logfile=log, timeout=RUN_TIMEOUT, umask=umask)[0]]]
+    if seq in ("finish-cancel", "killed-cancel"):
+        out.append(["maestro status", launch("maestro", ["status", "--disable-pager", oarg], cwd, envx, logfile=log)[0]])
+        out.append(["maestro cancel", launch("maestro", ["cancel", oarg], cwd, envx, stdin_text="y\n", logfile=log)[0]])
+        out.append(["lock left behind", os.path.exists(os.path.join(d, "out", ".cancel.lock"))])
+    return out
 
 
 def run_study_case(job):
@@ -329,10 +403,19 @@ def run_study_case(job):
     common_args = ["-s", POLL_SLEEP, "--attempts", case["attempts"], "--rlimit", case["rlimit"],
                    "--throttle", case["throttle"]] + flag_args(case) + ["-o", oarg, sarg]
     res = {"mode": mode, "pre": []}
+    envx, umask = ENV_PROFILES.get(case.get("env", "base"), ({}, None))
+    env = dict(env, **envx)
+    if case.get("sequence"):
+        try:
+            res["prelude"] = run_prelude(case, d, oarg, cwd, envx, umask, log)
+        except Exception as e:
+            res["prelude"] = [["prelude failed", repr(e)]]
     if mode == "fg":
-        rc, tail = launch("maestro", ["run", "-fg", "-y"] + common_args, cwd, env, logfile=log, timeout=RUN_TIMEOUT)
+        rc, tail = launch("maestro", ["run", "-fg", "-y"] + common_args, cwd, env, logfile=log, timeout=RUN_TIMEOUT, umask=umask)
     else:
-        rc0, tail0 = launch("maestro", ["run", "-n"] + common_args, cwd, {}, logfile=log)
+        # (-n answers the overwrite prompt too: a re-used directory is emptied through -y only)
+        rc0, tail0 = launch("maestro", ["run", "-n"] + common_args, cwd, envx, logfile=log, umask=umask) \
+            if not case.get("sequence") else store_only_y(common_args, cwd, envx, log, umask, d)
         res["pre"].append(["maestro run -n", rc0])
         if mode == "precancel":
             rc1, tail1 = launch("maestro", ["cancel", oarg], cwd, {}, stdin_text="y\n", logfile=log)
@@ -342,7 +425,7 @@ def run_study_case(job):
             rc, tail = rc0, tail0
         else:
             # the detached conductor inherits the cwd of `maestro run` and gets the directory as spelled there
-            rc, tail = launch("conductor", ["-t", POLL_SLEEP, oarg], cwd, env, logfile=log, timeout=RUN_TIMEOUT)
+            rc, tail = launch("conductor", ["-t", POLL_SLEEP, oarg], cwd, env, logfile=log, timeout=RUN_TIMEOUT, umask=umask)
     res["rc"] = rc
     res["tail"] = tail[-1500:]
     return res
@@ -445,6 +528,11 @@ def observe(case, d, res):
         return o
     o["status"] = stat
     o["lock_left"] = os.path.exists(os.path.join(out, ".cancel.lock"))
+    try:
+        o["top"] = sorted(x for x in os.listdir(out) if os.path.isdir(os.path.join(out, x)))
+    except OSError:
+        o["top"] = []
+    o["prelude"] = res.get("prelude")
     # captured output files per attempt pid
     files = {}
     for nd in inst:
@@ -578,7 +666,11 @@ def translate(case, o):
         rows = [None] * n
         for (nm, state, job, restarts, _ws, _pa) in o["status"][k]:
             if nm not in name_ix:
-                prob.append("status.csv names an unknown step %s" % nm)
+                if case.get("sequence"):
+                    viol.append("status.csv reports a step %s that is not part of this study (left over from the earlier "
+                                "command on the same directory: %s)" % (nm, case["sequence"]))
+                else:
+                    prob.append("status.csv names an unknown step %s" % nm)
                 continue
             if job in ("--", ""):
                 jl = []
@@ -629,6 +721,16 @@ def translate(case, o):
         return None, viol, prob
     states = [r[0] for r in final]
     cancelled = any(p["cancel"] for p in polls)
+    if not cancelled and (o["rc"] == 3 or "CANCELLED" in states):
+        viol.append("the study cancelled itself (exit %d, states %s) although no cancel request was made during this run%s"
+                    % (o["rc"], dict(Counter(states)),
+                       "; earlier commands on the same directory: %r" % (o.get("prelude"),) if case.get("sequence") else ""))
+    if case.get("sequence"):
+        known = {st["name"] for st in case["steps"]} | {"logs", "meta"}
+        stale = [x for x in o.get("top", []) if x not in known]
+        if stale:
+            viol.append("directories %r of the earlier command (%s) are still in the study directory after `maestro run -y`"
+                        % (stale, case["sequence"]))
     if not cancelled:
         want = 0 if all(s == "FINISHED" for s in states) else 2 if all(s in ("FINISHED", "FAILED") for s in states) else None
         if want is not None and o["rc"] != want:
@@ -742,6 +844,8 @@ def distribution(summaries):
         dist["throttle:%d" % c["throttle"]] += 1
         dist["flags:%s" % (" ".join(flag_args(c)) or "none")] += 1
         dist["out_spelled:" + c.get("ospell", "abs")] += 1
+        dist["env:" + c.get("env", "base")] += 1
+        dist["sequence:" + (c.get("sequence") or "none")] += 1
         for st_ in c["steps"]:
             if "end" in st_:
                 dist["end:" + st_["end"]] += 1
@@ -758,7 +862,7 @@ def distribution(summaries):
 
 
 def case_key(case, mode=""):
-    return json.dumps([case["steps"], case["params"], case["attempts"], case["throttle"], flag_args(case), case.get("ospell", "abs"), mode], sort_keys=True)
+    return json.dumps([case["steps"], case["params"], case["attempts"], case["throttle"], flag_args(case), case.get("ospell", "abs"), case.get("env"), case.get("sequence"), mode], sort_keys=True)
 
 
 # ----------------------------------------------------------------------------
